@@ -5,8 +5,10 @@ import YaegiVerif.Generated.C10
 
    hist EV…     → y=<results>;id=<n> g=<results>
      EV = (def KIND a b) | (use i VIA x) | (cancel CK)
-     KIND = named | method | closure | mvtop | mvfunc | wrapper      VIA = eval | host
+     KIND = named | method | closure | mvtop | mvfunc | wrapper | imported      VIA = eval | host
      CK   = loop | chan | expb | expa   (expired context: stop() before / after Execute refreshes the root id)
+          | hold   (not an event of `RunId.Ev`: a busy loop whose goroutine the harness keeps from returning until the
+                    NEXT event is over — the window of finding F10-1: `HSt.stoppedNotLeft`, then the event, then `HSt.leave`)
    results = values returned by the uses, in order, joined by ","   ("-" if there is no use)
    y= is the history run on the run-id model with the extracted facts (a dead definition returns 0 and keeps its
    state), g= the specification (every definition keeps working). -/
@@ -16,6 +18,7 @@ open YaegiVerif YaegiVerif.RunId
 def parseKind : String → Option DefKind
   | "named" => some .named | "method" => some .method | "closure" => some .closure
   | "mvtop" => some .methodValueTop | "mvfunc" => some .methodValueInFunc | "wrapper" => some .hostWrapper
+  | "imported" => some .imported
   | _ => none
 
 def parseEv : Sexp → Option Ev
@@ -34,13 +37,18 @@ def parseEv : Sexp → Option Ev
 def showResults (rs : List Nat) : String :=
   if rs.isEmpty then "-" else ",".intercalate (rs.reverse.map toString)
 
+def parseXEv : Sexp → Option XEv
+  | .list [.atom "cancel", .atom "hold"] => some .hold
+  | e => (parseEv e).map .ev
+
 def handle (args : List Sexp) : String :=
   match args with
   | .atom "hist" :: evs =>
-    (match evs.mapM parseEv with
+    (match evs.mapM parseXEv with
      | some es =>
-       let y := runHist Generated.C10.facts HSt.init es
-       let g := runSpec HSt.init es
+       let y := runX Generated.C10.facts es
+       -- the specification ignores cancelled evaluations, held or not
+       let g := runSpec HSt.init (XEv.plain es)
        s!"y={showResults y.results};id={y.id} g={showResults g.results}"
      | none => "bad-op")
   | _ => "bad-op"
